@@ -134,7 +134,45 @@ static Janet cfun_env_info(int32_t argc, Janet *argv) {
     return tup(out, 6);
 }
 
+/* (c09/fiber-info fiber) -> [flags frame stackstart stacktop maxstack frames env child last-value status-opaque]
+ * frames (top first) = [flags-without-HASENV prevframe pcdiff func envptr-or-nil slots] */
+static Janet cfun_fiber_info(int32_t argc, Janet *argv) {
+    janet_fixarity(argc, 1);
+    JanetFiber *fiber = janet_getfiber(argv, 0);
+    Janet out[10];
+    out[0] = janet_wrap_number((double) fiber->flags);
+    out[1] = janet_wrap_number((double) fiber->frame);
+    out[2] = janet_wrap_number((double) fiber->stackstart);
+    out[3] = janet_wrap_number((double) fiber->stacktop);
+    out[4] = janet_wrap_number((double) fiber->maxstack);
+    JanetArray *frames = janet_array(4);
+    int opaque = janet_fiber_status(fiber) == JANET_STATUS_ALIVE;
+    int32_t i = fiber->frame;
+    int32_t j = fiber->stackstart - JANET_FRAME_SIZE;
+    while (i > 0) {
+        JanetStackFrame *frame = (JanetStackFrame *)(fiber->data + i - JANET_FRAME_SIZE);
+        if (!frame->func) { opaque = 1; break; }
+        Janet e[6];
+        e[0] = janet_wrap_number((double)(frame->flags & 0x7FFFFFFF));
+        e[1] = janet_wrap_number((double) frame->prevframe);
+        e[2] = janet_wrap_number((double)(int32_t)(frame->pc - frame->func->def->bytecode));
+        e[3] = janet_wrap_function(frame->func);
+        e[4] = frame->env ? janet_wrap_pointer(frame->env) : janet_wrap_nil();
+        e[5] = tup(fiber->data + i, j > i ? j - i : 0);
+        janet_array_push(frames, tup(e, 6));
+        j = i - JANET_FRAME_SIZE;
+        i = frame->prevframe;
+    }
+    out[5] = tup(frames->data, frames->count);
+    out[6] = fiber->env ? janet_wrap_table(fiber->env) : janet_wrap_nil();
+    out[7] = fiber->child ? janet_wrap_fiber(fiber->child) : janet_wrap_nil();
+    out[8] = fiber->last_value;
+    out[9] = janet_wrap_boolean(opaque);
+    return tup(out, 10);
+}
+
 static const JanetReg cfuns[] = {
+    {"c09/fiber-info", cfun_fiber_info, NULL},
     {"c09/func-info", cfun_func_info, NULL},
     {"c09/def-info", cfun_def_info, NULL},
     {"c09/env-info", cfun_env_info, NULL},
